@@ -5,6 +5,7 @@ from typing import Callable, Dict, List
 
 from . import rules_algebra as RA
 from . import rules_kernels as RK
+from . import rules_effects as RF
 from . import rules_exc as RE
 from . import rules_poly as RP
 from . import rules_shapes as RS
@@ -108,6 +109,14 @@ def c12(ctx: Ctx) -> None:
     RP.rule_lp_bounds(ctx)
 
 
+def c13(ctx: Ctx) -> None:
+    RF.rule_no_operand_mutation(ctx)
+    RF.rule_no_global_mutation(ctx)
+    RF.rule_no_alias_results(ctx)
+    RF.rule_time_only_in_stats(ctx)
+    RK.rule_term_kernels(ctx, ["copy", "remove", "rename"])
+
+
 def c14(ctx: Ctx) -> None:
     RE.rule_raise_classes(ctx)
     RE.rule_constructed_not_raised(ctx)
@@ -174,7 +183,7 @@ def run_property(ctx: Ctx) -> None:
     spec = PROPS[ctx.prop]
     spec["fn"](ctx)
 
-_tmp = {"C01": c01, "C02": c02, "C03": c03, "C04": c04, "C06": c06, "C07": c07, "C08": c08, "C11": c11, "C12": c12, "C14": c14, "C15": c15, "C16": c16, "C17": c17, "C19": c19}
+_tmp = {"C01": c01, "C02": c02, "C03": c03, "C04": c04, "C06": c06, "C07": c07, "C08": c08, "C11": c11, "C12": c12, "C13": c13, "C14": c14, "C15": c15, "C16": c16, "C17": c17, "C19": c19}
 for _k, _f in _tmp.items():
     PROPS[_k] = {"fn": _f, "level": "other", "explanation": "tbd", "assumptions": []}
 
